@@ -143,6 +143,8 @@ VAL_CLASSES = {
     'dict': [('dict', DICT(VAL, VAL))], 'set': [('set', LIST(VAL))], 'bytes': [('bytes', None)],
 }
 VAL_ARITY = {'flt': 2}
+# imported abstract classes: the Val constructors that are instances (a dict is the only Mapping among them)
+VAL_IMPORTED_CLASSES = {'collections.abc.Mapping': 'dict', 'typing.Mapping': 'dict'}
 
 SIMPLE = {'num': 'Num', 'nat': 'Nat', 'int': 'Int', 'bool': 'Bool', 'str': 'String', 'val': 'Val',
           'none': 'Unit', 'pyobj': 'PyRt.PyObj', 'pytype': 'PyRt.PyType', 'intlit': 'Int'}
@@ -284,12 +286,14 @@ class FnInfo:
         self.exc = False              # returns Except Exc _
         self.mut = False              # returns (_, self)
         self.draw = False             # takes the extra parameter rnd
+        self.oracles = []             # extra function parameters standing for opaque library calls (json.loads)
         self.ret = None               # result type (before Except / × self)
         self.lines = []
         self.src = ''                 # "file:line name" for the doc comment
 
     def flags(self):
-        return (self.exc, self.mut, self.draw, repr(resolve(self.ret)) if self.ret is not None else None)
+        return (self.exc, self.mut, self.draw, tuple(self.oracles),
+                repr(resolve(self.ret)) if self.ret is not None else None)
 
     def result_lty(self):
         r = lty(self.ret)
@@ -400,6 +404,7 @@ class FnCtx:
         self.cls, self.defcls = cls, defcls          # instance class / class whose code is being compiled
         self.mode = info.kind
         self.exc = self.mut = self.draw = False
+        self.oracles = []
         self.draws = 0
         self.ret_types = []
         self.pre = []
@@ -620,6 +625,8 @@ class FnCtx:
         if t[0] == 'val':
             sel = []
             for c in sorted(classes):
+                if self.mod.imports.get(c) in VAL_IMPORTED_CLASSES and c not in env.vars:
+                    c = VAL_IMPORTED_CLASSES[self.mod.imports[c]]
                 if c not in VAL_CLASSES:
                     raise TranslateError(node, f'isinstance against {c} is not translated for a dynamic value')
                 for ctor in VAL_CLASSES[c]:
@@ -1002,6 +1009,27 @@ class FnCtx:
                     codes = [par(self.coerce(*self.expr(a, env), pt, a)) for a, pt in zip(args, ptypes)]
                     self.use_draw(n)
                     return f'{lean} {" ".join(codes)} rnd', rt
+                # opaque library functions (json.loads): the function becomes an extra PARAMETER of the translated
+                # definition, applied to exactly the declared positional arguments. Any other call shape - a
+                # further positional argument, ANY keyword (strict=False, cls=..., object_hook=...), */** - is
+                # a different function of the text and is refused (TranslateError = broken obligation): the
+                # translator never drops an argument.
+                orc = self.mod.spec.get('oracles', {}).get('.'.join([full] + d.split('.')[1:]))
+                if orc is not None:
+                    pname, ptypes, rt = orc
+                    if n.keywords:
+                        raise TranslateError(n, f'{d} called with keyword argument(s) '
+                                                f'{[k.arg or "**" for k in n.keywords]}: only the plain call '
+                                                f'{d}({", ".join("<" + show(t) + ">" for t in ptypes)}) is translated')
+                    args = self.plain_args(n, len(ptypes))
+                    codes = [par(self.coerce(*self.expr(a, env), pt, a)) for a, pt in zip(args, ptypes)]
+                    self.effect(n, f'call of {d}')
+                    self.exc = True
+                    if pname not in self.oracles:
+                        self.oracles.append(pname)
+                    tmp = self.fresh()
+                    self.pre.append(f'let {tmp} ← {pname} {" ".join(codes)}')
+                    return tmp, rt
         if isinstance(f, ast.Attribute):
             # self.m(...)
             if isinstance(f.value, ast.Name) and f.value.id == 'self' and self.cls and 'self' not in env.vars:
@@ -1059,6 +1087,10 @@ class FnCtx:
         if info.draw:
             self.use_draw(n)
             codes.append('rnd')
+        for o in info.oracles:
+            if o not in self.oracles:
+                self.oracles.append(o)
+            codes.append(o)
         code = ' '.join([info.lean] + codes)
         if info.exc or info.mut:
             self.effect(n, f'call of {info.lean}')
@@ -1736,6 +1768,7 @@ class ModuleTranslator:
                 ctx = FnCtx(self, info, node, cls, defcls)
                 lines = ctx.compile()
                 info.exc, info.mut, info.draw = ctx.exc or info.exc, ctx.mut or info.mut, ctx.draw or info.draw
+                info.oracles = info.oracles + [o for o in ctx.oracles if o not in info.oracles]
                 if info.kind == 'init':
                     info.ret = STRUCT(cls)
                 elif declared_ret is None:
@@ -1807,6 +1840,10 @@ class ModuleTranslator:
             ps.append(f'({safe(name)} : {lty(t)}' + (f' := {default}' if default is not None else '') + ')')
         if info.draw:
             ps.append('(rnd : Num)')
+        otypes = {v[0]: v for v in self.spec.get('oracles', {}).values()}
+        for o in info.oracles:
+            _, pts, rt = otypes[o]
+            ps.append(f'({o} : {" → ".join(lty(t) for t in pts)} → Except Exc {lty(rt)})')
         head = f'def {info.lean} ' + ' '.join(ps) + f' : {info.result_lty()} :=' + (' do' if info.exc else '')
         flags = [x for x, on in (('may raise', info.exc), ('returns the updated object', info.mut),
                                  ('rnd = the random.random() value of its one draw', info.draw)) if on]
@@ -1912,12 +1949,22 @@ for _p in ('keyvaluepairs', 'list', 'string', 'keys', 'dict', 'argskwargs'):
         'entry_functions': ['get_parsed_context'],
     }
 
+# the json parser: `json.loads` is an opaque function of the text (parameter `loads`, may raise); called with
+# anything but the one positional argument the translation fails.
+TARGETS['parser_json'] = {
+    'file': 'pypyr/parser/json.py', 'namespace': 'ParserJson', 'out': 'TranslatedParserJson.lean',
+    'functions': {'get_parsed_context': {'args': OPT(LIST(STR))}},
+    'returns': {'get_parsed_context': VAL},
+    'oracles': {'json.loads': ('loads', [STR], VAL)},
+    'entry_functions': ['get_parsed_context'],
+}
+
 FAMILIES = {
     'C06': ['retries'],
     'C04': ['types'],
     'C07': ['errors'],
     'C18': ['parser_keyvaluepairs', 'parser_list', 'parser_string', 'parser_keys', 'parser_dict',
-            'parser_argskwargs'],
+            'parser_argskwargs', 'parser_json'],
 }
 
 
